@@ -2,6 +2,7 @@
 handles known findings; minimises and writes replay files for unlisted violations."""
 from __future__ import annotations
 import contextlib
+import gc
 import faulthandler
 import io
 import importlib.util
@@ -67,6 +68,10 @@ def execute_plan(mod, plan, known_open, cap_s=60.0, keep_events=False):
     harness = None
     old = signal.signal(signal.SIGALRM, _alarm)
     signal.setitimer(signal.ITIMER_REAL, cap_s)
+    # the cycle collector is a scheduler of its own (it runs whenever allocation counts say so, which depends on everything
+    # the process did before): it is switched off for the run and runs only where the plan says so ('gc' steps)
+    gc.collect()
+    gc.disable()
     try:
         with contextlib.redirect_stdout(io.StringIO()):     # the library prints progress messages
             mod.execute(plan, ctx)
@@ -79,6 +84,7 @@ def execute_plan(mod, plan, known_open, cap_s=60.0, keep_events=False):
     finally:
         signal.setitimer(signal.ITIMER_REAL, 0)
         signal.signal(signal.SIGALRM, old)
+        gc.enable()
     out = {
         'digest': ctx.digest(), 'ticks': ctx.seq, 'violations': ctx.violations,
         'known_hits': dict(ctx.known_hits), 'probes': dict(ctx.probes), 'faults': dict(ctx.faults),
